@@ -401,6 +401,7 @@ fn cli(args: &[String], out: &mut dyn Write) -> i32 {
     let lines: Vec<String> = std::io::stdin().lock().lines().map(|l| l.unwrap()).collect();
     let n = lines.len();
     let next = std::sync::atomic::AtomicUsize::new(0);
+    let hung = std::sync::atomic::AtomicUsize::new(0);
     let results: Vec<std::sync::Mutex<Option<String>>> = (0..n).map(|_| std::sync::Mutex::new(None)).collect();
     std::thread::scope(|s| {
         for _ in 0..jobs.max(1) {
@@ -413,7 +414,13 @@ fn cli(args: &[String], out: &mut dyn Write) -> i32 {
                 let rec = match setup_case(&workdir, &ws) {
                     None => format!("{} bad-case", ws.first().unwrap_or(&"?")),
                     Some(case) => {
-                        let r = run_child(&okane, &case, timeout);
+                        // once many cases have hung, the code under test evidently hangs on a whole class of inputs: the rest
+                        // is run with a short leash so that the check ends in minutes (a case that ends normally takes milliseconds)
+                        let t = if hung.load(std::sync::atomic::Ordering::SeqCst) >= 16 { timeout.min(Duration::from_millis(1500)) } else { timeout };
+                        let r = run_child(&okane, &case, t);
+                        if r.status == "timeout" {
+                            hung.fetch_add(1, std::sync::atomic::Ordering::SeqCst);
+                        }
                         let _ = std::fs::remove_dir_all(&case.dir);
                         let cut = r.stderr.len().min(6000);
                         format!("{} status={} ms={} out={} err={}", case.id, r.status, r.ms, r.out_len, sx::enc_bytes(&r.stderr[..cut]))
@@ -440,6 +447,7 @@ fn cmd(args: &[String], out: &mut dyn Write) -> i32 {
     let timeout = Duration::from_millis(args.get(1).and_then(|s| s.parse().ok()).unwrap_or(10_000));
     std::fs::create_dir_all(&workdir).unwrap();
     let stdin = std::io::stdin();
+    let mut hung = 0usize;      // cases of this run that did not end: after a few, the rest gets a short leash (see `cli`)
     for line in stdin.lock().lines() {
         let line = line.unwrap();
         let ws: Vec<&str> = line.split(' ').filter(|w| !w.is_empty()).collect();
@@ -453,7 +461,8 @@ fn cmd(args: &[String], out: &mut dyn Write) -> i32 {
         let t0 = Instant::now();
         let mut argv = vec!["okane".to_string()];
         argv.extend(case.argv.iter().cloned());
-        let r = guarded(timeout, move || {
+        let t = if hung >= 4 { timeout.min(Duration::from_millis(1500)) } else { timeout };
+        let r = guarded(t, move || {
             let cli = match okane::cmd::Cli::try_parse_from(argv) {
                 Ok(c) => c,
                 Err(e) => return Err(format!("Usage/{}", e.kind())),
@@ -468,7 +477,10 @@ fn cmd(args: &[String], out: &mut dyn Write) -> i32 {
             }
         });
         let class = match r {
-            None => "timeout".to_string(),
+            None => {
+                hung += 1;
+                "timeout".to_string()
+            }
             Some(r) => class_of(r, |n| n.to_string()),
         };
         let _ = std::fs::remove_dir_all(&case.dir);
